@@ -28,6 +28,8 @@ pub struct Expectation {
     pub collapsed: BTreeSet<(String, String)>,
     /// properties dropped because the database says they do not serialize
     pub dropped: usize,
+    /// legacy values the migration cannot convert
+    pub unmigratable: usize,
 }
 
 /// Quantise a Color3 like the documented conversion: round(clamp(c,0,1)*255), NaN -> 0.
@@ -124,6 +126,32 @@ fn known_value(v: &GVal, canonical_ty: &Ty, ser_ty: &Ty) -> GVal {
     }
 }
 
+/// What a legacy (migrating) property with value `val` must end up as:
+/// (canonical name of the new property, value as a reader reports it).
+/// None when the database's own migration rejects the value.
+pub fn migrate_value(class: &str, view: &dbview::PropView, val: &GVal) -> Option<(String, GVal)> {
+    let m = view.migration?;
+    let variant = val.to_variant(&|_| rbx_types::Ref::none(), rbx_types::Ref::none());
+    let migrated = m.perform(&variant).ok()?;
+    let gv = GVal::from_variant(&migrated, &|_| GRef::Dangling);
+    let target = dbview::resolve(class, &m.new_property_name)?;
+    let ser = target.ser.as_ref()?;
+    Some((
+        target.roundtrip.clone(),
+        known_value(&gv, &target.canonical_ty, &ser.ty),
+    ))
+}
+
+/// The database default of `(class, canonical)` as a reader of a file would
+/// report it, if the database has one.
+pub fn default_as_read(class: &str, canonical: &str) -> Option<GVal> {
+    let v = dbview::default_of(class, canonical)?;
+    let gv = GVal::from_variant(v, &|_| GRef::Dangling);
+    let view = dbview::resolve(class, canonical)?;
+    let ser = view.ser.as_ref()?;
+    Some(known_value(&gv, &view.canonical_ty, &ser.ty))
+}
+
 /// Expected result of writing `forest.roots` and reading back.
 pub fn expect_roundtrip(
     forest: &GForest,
@@ -155,6 +183,16 @@ pub fn expect_roundtrip(
             };
             let (canonical, value) = match view {
                 None => (name.clone(), unknown_value(&val, fmt, attr_blob)),
+                Some(view) if view.migration.is_some() => {
+                    // legacy property: ends up as the new property with the migrated value
+                    match migrate_value(&node.class, &view, &val) {
+                        Some(x) => x,
+                        None => {
+                            exp.unmigratable += 1;
+                            continue;
+                        }
+                    }
+                }
                 Some(view) => match &view.ser {
                     None => {
                         exp.dropped += 1;
